@@ -16,6 +16,6 @@ for H in "$@"; do
   EXTRA=""
   case $H in h_more::leak*) EXTRA="--cbmc-args --memory-leak-check";; esac
   if [ -n "$FL" ]; then export RUSTFLAGS="$FL"; else unset RUSTFLAGS; fi
-  ( cd $W/crate && CARGO_NET_OFFLINE=true timeout 1500 cargo kani --harness $H --exact --target-dir $W/tgt$i -Z unstable-options -Z stubbing --output-format terse $EXTRA > $W/$H.log 2>&1; echo "== $H: $(grep -a -E 'VERIFICATION:' $W/$H.log)"; grep -a 'Failed Checks' $W/$H.log | sort | uniq -c ) &
+  ( cd $W/crate && CARGO_NET_OFFLINE=true timeout 1500 cargo kani --harness $H --exact --target-dir $W/tgt$i -Z unstable-options -Z stubbing --output-format terse $EXTRA > $W/$H.log 2>&1; echo "== $H: $(grep -a -E 'VERIFICATION:' $W/$H.log) $(grep -a 'cover properties satisfied' $W/$H.log)"; grep -a 'Failed Checks' $W/$H.log | sort | uniq -c ) &
 done
 wait
